@@ -89,7 +89,8 @@ TEXT = {
           "of the binary heap is additionally compared slot by slot. Mirror-level theorems so far: probe postcondition, soundness of "
           "contains, enumeration length; for the heap mirror, heapify_up / heapify_down only permute the array (siftUp_perm, "
           "siftDown_perm), so push adds exactly its argument and pop removes exactly one occurrence of the element it returns "
-          "(C20_heap_push_perm, C20_heap_pop_perm: the array is always the multiset pushed minus popped, for every history). The heap-"
+          "(C20_heap_push_perm, C20_heap_pop_perm), and remove takes out copies of its argument only, as many as it reports "
+          "(C20_heap_remove_perm): the array is always the multiset pushed minus popped or removed, for every history. The heap-"
           "order invariant (the first slot is a maximum) and the probe-chain refinement of the table are not proved (correspondence only).",
   "design_ref": "5.20",
   "note": "proof covers the reference semantics and basic mirror lemmas; the refinement mirror -> reference is checked per history (20k histories per quick run with forced collisions, wrap-around, growth), not proved; elements abstracted to (identity, reported hash)",
